@@ -511,6 +511,8 @@ class Options:
     max_concretize: int = 64
     path_timeout_s: int = 300  # wall-clock cap per path (a concrete non-terminating loop ends as inconclusive)
     lazy_nonlinear: bool = True
+    hashcons_timeout_ms: int = 1000  # budget of one "are these two radicands equal on this path" query
+    merge_clip: bool = False  # np.clip values as if-then-else terms instead of forking
     merge_minmax: bool = False  # np.min/np.max values as if-then-else terms instead of forking on the order of the elements
 
 
@@ -533,6 +535,7 @@ class SymCtx:
         self.solver_s = 0.0
         self.unknown_branches = 0
         self._sqrts: list[tuple[Any, Any]] = []
+        self._sqrt_factors: list = []
         self._trigs: list[tuple[Any, Any, Any]] = []
         self._acos: list[tuple[Any, Any]] = []
         self._pi = None
@@ -553,12 +556,45 @@ class SymCtx:
             self.solver.set("timeout", self.opts.branch_timeout_ms)
         return r
 
-    def add(self, term):
+    def add(self, term, _derive=True):
         self.solver.add(term)
         cj = _conjuncts(z3.simplify(term))
         self._flat.extend(cj)
         if not self.nonlinear and any(_is_nonlinear(a) for a in cj):
             self.nonlinear = True
+        if _derive and self._sqrts:
+            for a in cj:
+                self._derive_zero_roots(a)
+
+    def _derive_zero_roots(self, a):
+        """Sound consequences that keep degenerate paths linear: a constraint  sum_i k_i*r_i == 0  (or <= 0) over square-root
+        variables r_i >= 0 with positive k_i forces every r_i = 0, and r = 0 with r*r = t_1^2 + ... + t_m^2 forces every t_j = 0."""
+        if not (z3.is_eq(a) or z3.is_le(a) or z3.is_ge(a)):
+            return
+        lhs, rhs = a.arg(0), a.arg(1)
+        d = z3.simplify(lhs - rhs) if not z3.is_ge(a) else z3.simplify(rhs - lhs)
+        roots = {}
+        for arg, var in self._sqrts:
+            if z3.is_const(var):
+                roots.setdefault(var.get_id(), (var, []))[1].append(arg)
+        terms = d.children() if z3.is_add(d) else [d]
+        found = []
+        for t in terms:
+            if z3.is_const(t) and t.get_id() in roots:
+                found.append(t.get_id())
+            elif z3.is_mul(t) and t.num_args() == 2 and z3.is_rational_value(t.arg(0)) and t.arg(0).numerator_as_long() > 0 and z3.is_const(t.arg(1)) and t.arg(1).get_id() in roots:
+                found.append(t.arg(1).get_id())
+            else:
+                return
+        for rid in found:
+            var, args = roots[rid]
+            facts = [var == 0]
+            for e in args:
+                sq = _squares(e)
+                if sq:
+                    facts.extend(t == 0 for t in sq)
+            for f in facts:
+                self.add(f, _derive=False)
 
     def _cone(self, terms):
         """Assertions that share variables (transitively) with `terms`."""
@@ -607,6 +643,30 @@ class SymCtx:
         self.queries += 1
         self.solver_s += time.time() - t0
         return r
+
+    def _check_identity(self, term, timeout_ms):
+        """unsat-only pre-check of `term` against the path condition WITHOUT the defining equations r*r = e of the
+        engine-introduced square roots (the root variables stay, constrained only by their linear facts such as r >= 0,
+        r != 0): a subset of the path condition, so unsat is conclusive; anything else falls back to the sliced check.
+        Radicand / cosine identities such as |Rp-Rq|^2 = |p-q|^2 modulo c^2+s^2=1 are decided in well under a second this
+        way, whereas the root definitions in the slice stall nlsat."""
+        chosen, _ = self._cone([term])
+
+        def is_def(a):
+            return z3.is_eq(a) and _is_nonlinear(a) and any("sqrt!" in v for v in _vars(a))
+
+        pure = [a for a in chosen if not is_def(a)]
+        t0 = time.time()
+        sv = z3.Solver()
+        sv.set("timeout", timeout_ms)
+        sv.add(pure)
+        sv.add(term)
+        r = sv.check()
+        self.queries += 1
+        self.solver_s += time.time() - t0
+        if r == z3.unsat:
+            return r
+        return self._check_sliced(term, min(timeout_ms, 1000))
 
     def _nice_box(self):
         out = []
@@ -812,10 +872,17 @@ class SymCtx:
                 return SymReal(g, True)
             return SymReal(-g, True)
         # hash-consing modulo proved equality of the argument (DESIGN 3.2)
-        for arg, var in self._sqrts:
-            if self._check_sliced(arg != e, 1000) == z3.unsat:
+        hc = getattr(self.opts, "hashcons_timeout_ms", 1000)
+        for arg, var in list(self._sqrts):
+            if self._check_identity(arg != e, hc) == z3.unsat:
                 self._sqrts.append((e, var))
                 return SymReal(var, True)
+        # ... and modulo a registered non-negative factor f: sqrt(f^2 a) = f sqrt(a)
+        for f in self._sqrt_factors:
+            for arg, var in list(self._sqrts):
+                if self._check_identity(f * f * arg != e, hc) == z3.unsat:
+                    self._sqrts.append((e, f * var))
+                    return SymReal(f * var, True)
         if not x.nn and self.branch(e < 0):
             raise OutsideClaim("sqrt of a negative number")
         var = z3.Real(self.fresh("sqrt"))
@@ -823,6 +890,14 @@ class SymCtx:
         self._sqrts.append((e, var))
         self.nonlinear = True
         return SymReal(var, True)
+
+    def sqrt_factor(self, f) -> bool:
+        """Registers a factor f (proved >= 0 on this path) so that sqrt(f*f*a) is recognised as f*sqrt(a) for known roots."""
+        t = as_term(f)
+        if self._check_sliced(t < 0, 5000) != z3.unsat:
+            return False
+        self._sqrt_factors.append(to_real_term(t))
+        return True
 
     def _resolve_sqrt(self, e):
         if not _is_nonlinear(e):
@@ -858,14 +933,14 @@ class SymCtx:
         sv.add(a != b)
         return sv.check() == z3.unsat
 
-    def simp(self, x):
+    def simp(self, x, min_size=12):
         """Certified simplification of a symbolic real (sympy proposes, z3 proves equality under the pc)."""
         if not isinstance(x, SymReal):
             return x
         from . import simplify as S
 
         t = z3.simplify(x.t)
-        if S.term_size(t) < 12:
+        if S.term_size(t) < min_size:
             return x
         key = "S:" + t.sexpr()
         if key in _SQRT_CACHE:
@@ -930,7 +1005,7 @@ class SymCtx:
             if arg.eq(e):
                 return SymReal(var, True)
         for arg, var in self._acos:
-            if self._check_sliced(arg != e, 3000) == z3.unsat:
+            if self._check_identity(arg != e, max(3000, getattr(self.opts, "hashcons_timeout_ms", 1000))) == z3.unsat:
                 self._acos.append((e, var))
                 return SymReal(var, True)
         var = z3.Real(self.fresh("acos"))
@@ -1105,6 +1180,22 @@ class SymCtx:
 
 _VARS_CACHE: dict = {}
 _SQRT_CACHE: dict = {}
+
+
+def _squares(e):
+    """e == t_1^2 + ... + t_m^2 syntactically -> [t_1..t_m], else None."""
+    terms = e.children() if z3.is_add(e) else [e]
+    out = []
+    for t in terms:
+        if z3.is_mul(t) and t.num_args() == 2 and t.arg(0).eq(t.arg(1)):
+            out.append(t.arg(0))
+        elif z3.is_app_of(t, z3.Z3_OP_POWER) and z3.is_rational_value(t.arg(1)) and t.arg(1).numerator_as_long() == 2 and t.arg(1).denominator_as_long() == 1:
+            out.append(t.arg(0))
+        elif z3.is_rational_value(t) and t.numerator_as_long() == 0:
+            continue
+        else:
+            return None
+    return out
 
 
 def _vars(t) -> frozenset:
